@@ -825,7 +825,22 @@ def _now(it, a, k):
 
 
 DATETIME_CLASS = Builtin("datetime", models.make_datetime)
-DATETIME_CLASS.attrs = {"now": Builtin("datetime.now", _now),
+def _utcnow(it, a, k):
+    """datetime.utcnow(): a clock reading too, but of another clock than the local wall clock the library documents"""
+    dt = _now(it, a, k)
+    dt.is_now = False
+    dt.is_utcnow = True
+    return dt
+
+
+def _now_tz(it, a, k):
+    if a or k:
+        raise Unsupported("datetime.now(tz)")
+    return _now(it, a, k)
+
+
+DATETIME_CLASS.attrs = {"now": Builtin("datetime.now", _now_tz), "today": Builtin("datetime.today", _now_tz),
+                        "utcnow": Builtin("datetime.utcnow", _utcnow),
                         "strptime": Builtin("datetime.strptime", _strptime)}
 
 
